@@ -1,6 +1,6 @@
 SPECIFICATION Spec
 CONSTANTS Sigma = {97, 98}
-          MaxLen = 2
+          MaxLen = 1
           Level = 3
           Fam = "full"
 INVARIANTS TwoFormulations SearchIsContextMatch SearchFromMatch GroupsWF ReportSound ReportRejectsNonMatch 
